@@ -89,6 +89,27 @@ def localDate (r : Rule) (c : Cal) (yearOf : Int → Int) (wy week dow : Int) : 
     if weekYear r c retYear days ≠ wy then .error .valueError else .ok days
   else .ok days
 
+/-! ## CPython's `date.isocalendar()` (Lib/_pydatetime.py), over the same year table; ordinals = day number + 719163 -/
+
+/-- `_isoweek1monday(year)` as an ordinal -/
+def pyIsoWeek1Monday (c : Cal) (year : Int) : Int :=
+  let firstday := c.start year + 719163
+  let firstweekday := (firstday + 6) % 7
+  let w1 := firstday - firstweekday
+  if firstweekday > 3 then w1 + 7 else w1
+
+/-- `date.isocalendar()` for the date with calendar year `year` and day number `days` → (year, week, weekday) -/
+def pyIsocalendar (c : Cal) (year days : Int) : Int × Int × Int :=
+  let today := days + 719163
+  let w1 := pyIsoWeek1Monday c year
+  let week := (today - w1) / 7          -- Python divmod: floor
+  let day := (today - w1) % 7
+  if week < 0 then
+    let w1' := pyIsoWeek1Monday c (year - 1)
+    (year - 1, (today - w1') / 7 + 1, (today - w1') % 7 + 1)
+  else if week ≥ 52 ∧ today ≥ pyIsoWeek1Monday c (year + 1) then (year + 1, 1, day + 1)
+  else (year, week + 1, day + 1)
+
 /-! ## weekday navigation on day numbers (`LocalDate.next/previous`, `DateAdjusters.*_or_same`) -/
 
 /-- difference added by `LocalDate.next(target)` -/
@@ -162,6 +183,15 @@ def handle (toks : List String) : Option String :=
       let wy := weekYear r c cy d
       if !(t.covers [wy]) then none else
       some (showInts [wy, weekOf r c cy d, dayOfWeek d])
+    | _ => none
+  | "wy.pyiso" :: rest => do
+    -- CPython model: … calYear days → isoYear isoWeek isoWeekday
+    let (_, t, c, args) ← parseCtx rest
+    match args with
+    | [cy, d] =>
+      if !(t.covers [cy - 1, cy, cy + 1]) then none else
+      let (y, w, wd) := pyIsocalendar c cy d
+      some (showInts [y, w, wd])
     | _ => none
   | "wy.weeks" :: rest => do
     let (r, t, c, args) ← parseCtx rest
